@@ -66,6 +66,13 @@ Theorem C13_time_scaling_ff : forall lam na nk no Bm,
 Proof. exact time_scaling_ff. Qed.
 Print Assumptions C13_time_scaling_ff.
 
+(* Infidelity-type integrals (trapezoidal rule of util.integrate): integrand x lam (spectrum / lam times filter
+   function x lam^2) on the grid omega / lam gives the same value. *)
+Theorem C13_time_scaling_trapz : forall lam, 0 < lam -> forall f x,
+  trapz RO (smul lam f) (sdiv lam x) = trapz RO f x.
+Proof. exact time_scaling_trapz. Qed.
+Print Assumptions C13_time_scaling_trapz.
+
 (* ============================== zero-duration segments ============================== *)
 
 Theorem C13_foi_zero_duration : forall thr w evm evn, foi_entry RO thr w evm evn 0 = (0, 0).
